@@ -107,7 +107,9 @@ def run(args):
         ep["statements"] = len(cases)
         for i, ((t, f), r) in enumerate(zip(cases, impl)):
             case = {"stmt": t, "flags": f}
-            if "panic" in r or "exit" in r or "timeout" in r:
+            if "timeout" in r:
+                continue     # no answer within the pool's limit (load): termination is C10's business
+            if "panic" in r or "exit" in r:
                 V.violation("crash:visual-endpoint", case, observed={k: r[k] for k in r if k != "stack"}, what="visual conversion panicked / exited / hung")
                 continue
             if i in mj:
